@@ -23,6 +23,9 @@ association built with `syncassoc.mk`.  The bound handler is a generator produce
 `hook(slot, event)` (optional) is called by the generated handler at every point where the handler runs:
 slot 0 = before its first yield, slot j = after its j-th yield was consumed (the last one = just before the
 generator returns).  C23 uses it to inject C-CANCELs (syncassoc.inject_message) and to poll event.is_cancelled.
+A truthy return value makes the handler do what the documentation prescribes after a cancel: yield
+(0xFE00, None) instead of its next result and return.  The hook runs inside pynetdicom's handler wrapper, so
+it must only record (an exception raised there would be taken for a handler exception).
 
 C-GET sub-operations travel over the same association: a PeerScript answers each C-STORE-RQ with the outcome
 scripted for the step being processed.  C-MOVE: `assoc.ae.associate` is replaced by a stub returning a
@@ -239,6 +242,7 @@ class OpResult:
         self.escaped = None  # exception escaping _serve_request
         self.stub = None
         self.announced = False
+        self.cancel_yielded = False
 
 
 def run_op(a, op, hook=None, via_queue=False):
@@ -256,21 +260,23 @@ def run_op(a, op, hook=None, via_queue=False):
 
     def handler(event):
         slot = 0
-        if hook:
-            hook(slot, event)
+        stop = hook(slot, event) if hook else None
         if svc == "move":
             dest = op.get("dest", "ok")
             yield (None, None) if dest == "none" else ("127.0.0.1", 11112)
             slot += 1
-            if hook:
-                hook(slot, event)
+            stop = (hook(slot, event) if hook else None) or stop
         if svc in ("get", "move"):
             res.announced = True
             yield op["n"]
             slot += 1
-            if hook:
-                hook(slot, event)
+            stop = (hook(slot, event) if hook else None) or stop
         for i, st in enumerate(steps):
+            if stop:
+                # what the documentation tells a handler to do once is_cancelled is True
+                res.cancel_yielded = True
+                yield 0xFE00, None
+                return
             res.marks.append(len(a.sent))
             cur["step"] = st
             res.reached = i + 1
@@ -279,8 +285,7 @@ def run_op(a, op, hook=None, via_queue=False):
             else:
                 yield step_object(st)
             slot += 1
-            if hook:
-                hook(slot, event)
+            stop = hook(slot, event) if hook else None
         res.marks.append(len(a.sent))
         res.finished = True
 
